@@ -23,8 +23,9 @@ class _RunningI2P:
             raise InvalidHintError("unrecognized I2P hint")
         host, portnum = mo.group(1), int(mo.group(3)) if mo.group(3) else None
         kwargs = self._kwargs.copy()
-        if not portnum and 'port' in kwargs:
-            portnum = kwargs.pop('port')
+        default_portnum = kwargs.pop('port', None)
+        if not portnum:
+            portnum = default_portnum
         ep = SAMI2PStreamClientEndpoint.new(self._sam_endpoint, host, portnum, **kwargs)
         return ep, host
 
